@@ -254,6 +254,7 @@ def check_site(chk, site, options):
     if not has_kwstar:
         for m_name in sorted((g_params & options) & caller_opts):
             if m_name not in bound:
+                chk.instance("E3-fwd", "%s: option `%s` known to both sides - NOT PASSED" % (tag, m_name))
                 chk.violation(
                     "E3-complete", where, "%s:%s" % (g.qual, m_name),
                     "caller has option `%s` but does not pass it to %s: the callee default silently replaces the user's choice"
@@ -605,7 +606,7 @@ def run(repo, chk, tier):
                     supplied[kw.arg] = origin_name(init, kw.value)
     sup_opts = {k for k in supplied if k in options}
     for nm in sorted(lists[a] - sup_opts):
-        chk.violation("E3-list", a, "unsupplied:%s" % nm, "listed option '%s' is never supplied by SimpleData.__init__" % nm, file=DATA, line=init.lineno)
+        chk.violation("E3-list", init.key, "unsupplied:%s" % nm, "option '%s' is listed by the default preprocessor but never supplied by SimpleData.__init__" % nm, file=DATA, line=init.lineno)
     for nm in sorted(sup_opts - lists[a]):
         chk.violation("E3-list", a, "unlisted:%s" % nm, "SimpleData.__init__ supplies option '%s' but the preprocessor's literal list drops it" % nm, file=PRE, line=pre_call.lineno)
     for nm in sorted(CONFIG_LIST_MIN - sup_opts):
